@@ -26,7 +26,7 @@ echo "# Seeded changes vs. checks"
 echo
 echo "Produced by tools/seeded_results.sh: each patch is applied in a scratch worktree of /repo HEAD, the quick check of the"
 echo "owning property (or the checks / tier named in seeded/<name>/checks, seeded/<name>/tier) is run against it with --repo, the"
-echo "worktree is removed. rc=1 = caught (VIOLATION), rc=0 = missed."
+echo "worktree is removed. rc=1 = caught (VIOLATION), rc=0 = missed.  VERIF_SEED of this run: ${VERIF_SEED:-1}."
 echo
 echo "| change | property | what was changed | needs | check result | signatures |"
 echo "|---|---|---|---|---|---|"
